@@ -19,7 +19,14 @@
 //	    both phases are served by the same configuration (old, or the one the
 //	    payload describes);
 //	(4) while an update that ends up rejected is in progress, no transaction is
-//	    served by the configuration that is being rejected.
+//	    served by the configuration that is being rejected;
+//	(5) an accepted update (status 200) has written no file outside the directory
+//	    its kind belongs to: the whole configuration root is walked before and
+//	    after, nothing outside the five configuration places differs, and the
+//	    path of a payload file name that is not below its directory (element by
+//	    element, as filepath.Rel sees it -- a sibling such as cfg/flows-disabled
+//	    shares the string prefix of cfg/flows and is NOT below it) has not
+//	    received the bytes of that payload entry.
 //
 // Three ways in which the gateway is known not to meet this are classified
 // with signatures of their own (open known findings, known_findings.d/C08.json);
@@ -180,6 +187,65 @@ func monitor(k *Case) []c.Hit {
 			add("engine-not-restored:"+k.Handler,
 				fmt.Sprintf("status %d: probes after the failed update behave as before it %s", k.Status, viewStr(old)),
 				"after: "+viewStr(last))
+		}
+	}
+	if k.Status == 200 {
+		// (5) an accepted update writes every file of a directory field below the
+		// directory of its kind: nothing outside the configuration places is created,
+		// changed or removed
+		before, after := treeMap(k.TreeBefore), treeMap(k.After)
+		var diff []string
+		for f, h := range before {
+			if f.Area != aOutside {
+				continue
+			}
+			if h2, ok := after[f]; !ok {
+				diff = append(diff, "deleted outside/"+f.Rel)
+			} else if h2 != h {
+				diff = append(diff, "changed outside/"+f.Rel)
+			}
+		}
+		for f := range after {
+			if _, ok := before[f]; !ok && f.Area == aOutside {
+				diff = append(diff, "added outside/"+f.Rel)
+			}
+		}
+		// the path a name that is not below its directory points at must not have
+		// received the bytes of that payload entry (a covered place such as the gateway
+		// file may change for reasons of its own: /apply_flows removes it, the
+		// gateway_config field rewrites it)
+		legit := map[string]bool{}
+		for _, l := range k.Landings {
+			if l.StaysIn {
+				legit[l.Path] = true
+			}
+		}
+		for _, l := range k.Landings {
+			if l.StaysIn || legit[l.Path] {
+				continue
+			}
+			for _, e := range k.Payload {
+				if e.Src != l.Src || e.Name != l.Name {
+					continue
+				}
+				sameBytesElsewhere := false
+				for _, o := range k.Payload {
+					if (o.Src == aGateway || o.Src == aMetricsUser) && o.Content == e.Content {
+						sameBytesElsewhere = true
+					}
+				}
+				want := sha(k.Contents[e.Content])
+				if !sameBytesElsewhere && l.ShaAfter == want && l.ShaBefor != want {
+					diff = append(diff, fmt.Sprintf("path %s (payload %s name %q, not below the %s directory) was %s, now holds the bytes of that payload entry (%s)",
+						l.Path, areaName[l.Src], l.Name, areaName[l.Src], l.ShaBefor, l.ShaAfter))
+				}
+			}
+		}
+		sort.Strings(diff)
+		if len(diff) > 0 {
+			add("file-written-outside-its-directory:payload-file-name",
+				"status 200: every file of the payload is written below the directory of its kind; nothing outside the configuration places changes",
+				strings.Join(diff, "; "))
 		}
 	}
 	isOld := func(v []ViewEnt) bool { return sameView(v, old) }
